@@ -894,6 +894,10 @@ class Interp:
                 fv = self.fo.fold(s.frame.module, s.frame.func, node, self._const_env(s))
                 if not is_unknown(fv):
                     v = wrap(fv)
+            if v is None and isinstance(node, ast.BinOp) and isinstance(node.op, ast.Add) and len(vals) == 2 \
+                    and isinstance(vals[0], ListVal) and isinstance(vals[1], ListVal) \
+                    and vals[0].is_tuple == vals[1].is_tuple:
+                v = ListVal(vals[0].items + vals[1].items, vals[0].is_tuple)
             if v is None and isinstance(node, ast.Subscript) and len(vals) >= 2:
                 base, idx = vals[0], vals[1]
                 items = self.concrete_items(base)
@@ -1156,9 +1160,26 @@ class Interp:
         cls = self.ix.annotation_class(fd.module, fd.parent, fd.node.returns)
         elem = self.ix.annotation_elem_class(fd.module, fd.parent, fd.node.returns)
         s = Sym('ret:' + fd.name, cls=cls, origin=origin, node=node, elem_cls=elem)
+        if self._constructs_its_result(fd):
+            s.nullness = False
         if fd.node.returns is not None:
             s.ret_annotation = (fd.node.returns, fd.module, fd.parent)
         return s
+
+    def _constructs_its_result(self, fd: FuncDef) -> bool:
+        """every exit of the function returns a freshly constructed object of a repository class (never None)"""
+        cache = self.__dict__.setdefault('_ctor_result_cache', {})
+        if fd in cache:
+            return cache[fd]
+        ok = not fd.is_generator and bool(fd.node.body) and isinstance(fd.node.body[-1], (ast.Return, ast.Raise))
+        if ok:
+            for n in walk_own(fd.node):
+                if isinstance(n, ast.Return):
+                    if not isinstance(n.value, ast.Call) or not isinstance(self.ix.callee(fd.module, fd, n.value), ClassDef):
+                        ok = False
+                        break
+        cache[fd] = ok
+        return ok
 
     # ---- calls
     def ev_call(self, node: ast.Call, st: State):
